@@ -57,8 +57,13 @@ FmtProps(ev, k, s, r) ==
        THEN IF s.res \notin Documented THEN <<"C10">>
             ELSE IF r.res # "ok" THEN <<"C10">>                       \* must have thrown r.res
             ELSE IF s.res \notin {"ok", "unicode_error"} THEN <<"C10", "C11">>
+            \* the string sink is wrong while a byte sink of the same call is right: the sinks disagree (C17 as well)
+            ELSE IF \E j \in 1..Len(ev.sinks) : ev.sinks[j].k \in {"printf_FILE", "writef_ostream"} /\ SinkOk(ev.sinks[j].k, ev.sinks[j], r)
+                 THEN <<"C11", "C17">>
             ELSE <<"C11">>
-       ELSE IF s.res \notin Documented THEN <<"C10">>
+       \* an undocumented exception out of another sink: not total (C10) - and, when ST::format itself accepted the call,
+       \* a sink that did not emit the same bytes (C17)
+       ELSE IF s.res \notin Documented THEN (IF formatRight /\ r.res = "ok" THEN <<"C10", "C17">> ELSE <<"C10">>)
        ELSE IF ~formatRight THEN <<>>                                 \* reported at the format sink
        ELSE IF r.res = "ok" THEN <<"C17">> ELSE <<"C10">>
 
